@@ -310,6 +310,7 @@ class Testbed(object):
                     hs.handlers[i] = ChainProbe(InnerProbe(h, i, self), i, self)
                 chain.append((inner_name, wrapped))
             self.chains.append(chain)
+            self.inner_names = [n for n, _ in chain]
             if config['family'] == socket.AF_UNIX:
                 self.addrs.append((socket.AF_UNIX, self.sockname))
             else:
@@ -385,16 +386,27 @@ class Testbed(object):
                 break
             if not got and sent >= len(raw):
                 idle += 1
-                if idle > 40:
-                    # deferred producers wait `delay` seconds between polls
-                    time.sleep(0.005)
-                if idle > 120:
+                if idle > 8:
+                    # Nothing arrives.  A refusal is produced in the same poll as
+                    # the request; only an inner handler that started deferred
+                    # work (it touched supervisord) can still answer later, and
+                    # deferred producers are polled every `delay` = 0.1 s.
+                    if not self.inner_calls or not self.access or self._tail_stuck():
+                        break
+                    time.sleep(0.01)
+                if idle > 60:
                     break
             else:
                 idle = 0
         c.close()
         self.poll(3)
         return buf, closed
+
+    def _tail_stuck(self):
+        """A tail stream outside chunked mode sits in the globbing producer until
+        64 KB accumulate: nothing more will arrive."""
+        return bool(self.inner_calls) and self.inner_names[self.inner_calls[0][0]] in (
+            'logtail_handler', 'mainlogtail_handler')
 
     def close(self):
         for config, hs in self.servers:
